@@ -202,6 +202,13 @@ def exc_out(exc, consumed, other):
     return ["raise", type(exc).__name__, str(exc)[:160], consumed, other]
 
 
+def make_wrapper(obj, qname, unit):
+    """(wrapper, factor of the unit, the wrapped instance)"""
+    if qname == "SI":
+        return UN.SIDist(obj, unit), float(UN.SI(1.0, unit)), obj
+    return getattr(UN, qname + "Dist")(obj, unit), float(getattr(UN, qname)._units[unit]), obj
+
+
 NON_STREAMS = (None, 3, "stream")       # objects that are not a StreamInterface, for refused assignments
 
 
@@ -210,6 +217,7 @@ def run_case(case):
     streams = [make_stream(s) for s in case["streams"]]
     inst = {}
     cur = {}
+    wrappers = {}
     outs = []
     timed_out = False
 
@@ -264,15 +272,24 @@ def run_case(case):
                     outs.append(["val", "i", str(v), m, o])
                 else:
                     outs.append(["val", "other", repr(type(v)), m, o])
+            elif kind == "wrap" and op[1] in inst:
+                # build the quantity wrapper now and keep it: later drawq operations of this instance with the same
+                # quantity / unit draw through THIS object (a wrapper built before a re-pointing must follow it)
+                _, i, qname, unit = op
+                try:
+                    wrappers[(i, qname, unit)] = make_wrapper(inst[i], qname, unit)
+                    outs.append(["wrap"])
+                except Exception as exc:  # noqa
+                    outs.append(exc_out(exc, *used(cur[i])))
+            elif kind == "wrap":
+                outs.append(["noinst"])
             elif kind == "drawq":
                 _, i, qname, unit = op
                 try:
-                    if qname == "SI":
-                        w = UN.SIDist(inst[i], unit)
-                        factor = float(UN.SI(1.0, unit))
-                    else:
-                        w = getattr(UN, qname + "Dist")(inst[i], unit)
-                        factor = float(getattr(UN, qname)._units[unit])
+                    key = (i, qname, unit)
+                    if key not in wrappers or wrappers[key][2] is not inst[i]:
+                        wrappers[key] = make_wrapper(inst[i], qname, unit)
+                    w, factor, _of = wrappers[key]
                     q = w.draw()
                 except Exception as exc:  # noqa
                     outs.append(exc_out(exc, *used(cur[i])))
